@@ -16,6 +16,14 @@ class G:
         self.max_depth = max_depth
         self.n = 0
 
+    mark_as = False          # C09: emit the optional AS as a marker so that both spellings can be produced from one statement
+
+    def opt_as(self):
+        if self.mark_as:
+            self.r.random()
+            return " \x01as\x01 "
+        return self.r.choice([" as ", " "])
+
     def ident(self, p="c"):
         self.n += 1
         return "%s%d" % (p, self.n)
@@ -120,7 +128,7 @@ class G:
             return self.ident("t") + ".*"
         e = self.window() if x < 0.2 else self.expr(d)
         if r.random() < 0.35:
-            e += r.choice([" as ", " "]) + self.ident("n")
+            e += self.opt_as() + self.ident("n")
         return e
 
     def source(self, d):
@@ -131,7 +139,7 @@ class G:
         if r.random() < 0.15:
             t = self.ident("s") + "." + t
         if r.random() < 0.4:
-            t += r.choice([" as ", " "]) + self.ident("a")
+            t += self.opt_as() + self.ident("a")
         return t
 
     def simple(self, d):
